@@ -1,5 +1,6 @@
 import XrsVerif.Proofs.Focal
 import Mathlib.Tactic.NormNum
+import Mathlib.Tactic.SplitIfs
 /-!
   C09, hotspots: the generated per-cell classifier `Gen.hotspots_cpu` (translated from
   `focal._calc_hotspots_numpy` on every run) in closed form.  The proof below is a case split over the
@@ -189,5 +190,24 @@ theorem hotspotClass_none : hotspotClass (none : NV K) = some 0 := by
   have n2 : ¬ ((1 : K) < 20⁻¹) := by norm_num
   have n3 : ¬ ((1 : K) < 10⁻¹) := by norm_num
   ksimp [hotspotClass, hotspots_cpu, ha, n1, n2, n3]
+
+theorem confidence_neg (v : K) : confidence (-v) = confidence v := by simp [confidence, abs_neg]
+
+theorem hotspotSpec_neg (v : K) : hotspotSpec (-v) = -hotspotSpec v := by
+  unfold hotspotSpec
+  rw [confidence_neg]
+  simp only [neg_pos, neg_lt_zero]
+  split_ifs with h1 h2 h3 <;> first | rfl | simp | (exfalso; linarith)
+
+theorem hotspotClass_neg (z : NV K) : hotspotClass (Fl.neg z) = Fl.neg (hotspotClass z) := by
+  cases z with
+  | none => simp [hotspotClass_none]
+  | some v => rw [fl_neg, hotspotClass_some, hotspotClass_some, hotspotSpec_neg, fl_neg]
+
+theorem hotspotSpec_values (v : K) :
+    hotspotSpec v = 0 ∨ hotspotSpec v = 90 ∨ hotspotSpec v = -90 ∨ hotspotSpec v = 95 ∨ hotspotSpec v = -95 ∨
+      hotspotSpec v = 99 ∨ hotspotSpec v = -99 := by
+  unfold hotspotSpec confidence
+  split_ifs <;> simp
 
 end XrsVerif.Focal
